@@ -2,10 +2,11 @@
 Driver ops of C12 (model side of harness/rt/outbuf.go, outbuf_call.go):
   ob   <prog> <limit>     every op of the program on `OutBuf.new limit`, then `bytes`
   obn  <prog> <limit>     `prepare limit ops` (stops at the first error)
-  call <req> <rep> <err> <kind> <q> <r> …   `callLoop` / `callHttp` (further arguments are the
+  c12call <req> <rep> <err> <kind> <q> <r> …   `callLoop` / `callHttp` (<err>: comma-separated
+                          programs of sendError's steps; further arguments are the
                           harness's generating parameters and are ignored)
 Program: opcode c, c%4 = 0 write, 1 writeByte(c), 2 writeString, 3 reset; write/writeString
-are followed by a 3-byte big-endian length (missing bytes = 0); content byte j of the op at
+are followed by a 3-byte big-endian length (missing bytes = 0, taken mod 2^21); content byte j of the op at
 program offset p is (13p + j) mod 256.
 -/
 import Driver.Util
@@ -18,9 +19,9 @@ def c12Content (p n : Nat) : Bytes := (List.range n).map fun j => UInt8.ofNat (1
 
 /-- (length, bytes consumed) of the 3-byte length field, missing bytes read as 0. -/
 def c12Len3 : List UInt8 → Nat × Nat
-  | a :: b :: c :: _ => (a.toNat * 65536 + b.toNat * 256 + c.toNat, 3)
-  | [a, b] => (a.toNat * 65536 + b.toNat * 256, 2)
-  | [a] => (a.toNat * 65536, 1)
+  | a :: b :: c :: _ => (a.toNat % 32 * 65536 + b.toNat * 256 + c.toNat, 3)
+  | [a, b] => (a.toNat % 32 * 65536 + b.toNat * 256, 2)
+  | [a] => (a.toNat % 32 * 65536, 1)
   | [] => (0, 0)
 
 def c12ParseAux : Nat → Nat → List UInt8 → List Op
@@ -36,6 +37,21 @@ def c12ParseAux : Nat → Nat → List UInt8 → List Op
       (if k = 0 then Op.write d else Op.writeString d) :: c12ParseAux fuel (p + 1 + used) (rest.drop used)
 
 def c12Parse (prog : Bytes) : List Op := c12ParseAux (prog.length + 1) 0 prog
+
+/-- Sizes only (content is irrelevant to `prepareLen`/`callLoop`/`callHttp`). -/
+def c12ParseAuxN : Nat → List UInt8 → List Op
+  | 0, _ => []
+  | _, [] => []
+  | fuel + 1, c :: rest =>
+    match c.toNat % 4 with
+    | 1 => Op.writeByte c :: c12ParseAuxN fuel rest
+    | 3 => Op.reset :: c12ParseAuxN fuel rest
+    | k =>
+      let (n, used) := c12Len3 rest
+      let d := List.replicate n (0 : UInt8)
+      (if k = 0 then Op.write d else Op.writeString d) :: c12ParseAuxN fuel (rest.drop used)
+
+def c12ParseN (prog : Bytes) : List Op := c12ParseAuxN (prog.length + 1) prog
 
 def c12Hash (b : Bytes) : Nat := b.foldl (fun h x => (h * 31 + x.toNat) % 4294967296) 7
 
@@ -65,15 +81,15 @@ def stepOutBuf (op : String) (args : List String) : Option String :=
   | "obn", [x, l] => do
     let prog ← unhex x
     let limit ← l.toNat?
-    pure (showRes (fun b => s!"ok len={b.length}") (prepare limit (c12Parse prog)))
+    pure (showRes (fun n => s!"ok len={n}") (prepareLen limit (c12ParseN prog)))
   | "c12call", rq :: rp :: er :: kind :: q :: r :: _ => do
     let req ← unhex rq
     let rep ← unhex rp
-    let errp ← unhex er
+    let errp ← (er.splitOn ",").mapM unhex
     let q ← q.toNat?
     let r ← r.toNat?
-    let o ← if kind == "loop" then some (callLoop q r (c12Parse req) (c12Parse rep) (c12Parse errp))
-            else if kind == "http" then some (callHttp q r (c12Parse req) (c12Parse rep))
+    let o ← if kind == "loop" then some (callLoop q r (c12ParseN req) (c12ParseN rep) (errp.map c12ParseN))
+            else if kind == "http" then some (callHttp q r (c12ParseN req) (c12ParseN rep))
             else none
     pure s!"sent={if o.sent then "y" else "n"} res={c12ErrName o.res}"
   | _, _ => none
